@@ -30,7 +30,7 @@ NOSPECIAL = ("cone", "disk", "ellipse", "hull", "mesh")
 
 
 def cases(tier):
-    return 5000 if tier == "quick" else 200000
+    return 10000 if tier == "quick" else 200000
 
 
 def run_case(rng, idx, tier):
@@ -45,7 +45,10 @@ def run_case(rng, idx, tier):
         margin_p = 0.0; forced = "mixed"
     elif idx % 4 == 2:
         kA = str(rng.choice(PRIM)); kB = str(rng.choice(PRIM)); margin_p = 0.0; forced = "prim"
-    sA, sB, cls, truth = pairs.make_pair(rng, kA, kB, margin_p=margin_p)
+    class_p = None
+    if forced == "prim" and rng.random() < 0.5:
+        class_p = {"axial": .5, "lattice": .2, "feature": .15, "gap": .15}
+    sA, sB, cls, truth = pairs.make_pair(rng, kA, kB, margin_p=margin_p, class_p=class_p)
     oA, oB, L = pairs.scene(sA, sB)
     A, B = pairs.build_pair(sA, sB)
     tol = TOL * L
@@ -89,17 +92,20 @@ def run_case(rng, idx, tier):
 
     # ---- original
     try:
-        d, a, b, _, iters = gjk.gjk_distance_original(A, B)
+        d, a, b, simplex_o, iters = gjk.gjk_distance_original(A, B)
         ev["original_calls"] += 1
         d = float(d); a = np.asarray(a, float); b = np.asarray(b, float)
+        # mechanism of K24: the routine reports distance 0 whenever its final simplex has four points
+        # (observable: exact 0 together with two identical closest points, which only that branch produces)
+        zero4 = {"tetrahedron_branch": bool(d == 0.0 and np.array_equal(a, b))}
         if not monitors.finite(d, a, b):
             viol.append({"key": dict(key0, fn="original", kind="non-finite"), "err": None, "msg": "original returned d=%r a=%r b=%r" % (d, a, b)})
         else:
-            judge_value("original", d, {})
+            judge_value("original", d, zero4)
             ma = oA.dist(a) / L; mb = oB.dist(b) / L; cons = abs(float(np.linalg.norm(a - b)) - d) / L
             worst["original_membership/L"] = max(ma, mb); worst["original_consistency/L"] = cons
             if ma > TOL or mb > TOL:
-                viol.append({"key": dict(key0, fn="original", kind="point-not-on-collider"), "err": float(max(ma, mb)),
+                viol.append({"key": dict(key0, fn="original", kind="point-not-on-collider", returned_zero=bool(d == 0.0), **zero4), "err": float(max(ma, mb)),
                              "msg": "original(%s,%s) [%s]: closest point off its collider by %.3g*L" % (names[0], names[1], cls, max(ma, mb))})
             if cons > TOL:
                 viol.append({"key": dict(key0, fn="original", kind="inconsistent"), "err": float(cons),
